@@ -56,9 +56,21 @@ class MergeTap(object):
         C, S, U = mk('C'), mk('S'), mk('U')
         store, ident = [], {}
         groups = []
+        # hypotheses of Props/C03Merge.lean (`MergeSpec.specCombo`): the request of a suffixed group maps its own suffix
+        # to ONE provider and has all its resources there; a request of the unsuffixed group maps '' only; '' is not a
+        # member of a same_subtree set
+        shape = []
         for suffix, areqs in candidates.items():
             lst = []
             for areq in areqs:
+                provs = {arr.resource_provider.uuid for arr in areq.resource_requests}
+                mp = {s_: set(ps_) for s_, ps_ in areq.mappings.items()}
+                if suffix != '':
+                    if list(mp) != [suffix] or len(mp[suffix]) != 1 or not provs <= mp[suffix] or not areq.use_same_provider:
+                        shape.append('group %r: mappings %r, resources on %r, use_same_provider=%r'
+                                     % (suffix, mp, sorted(provs), areq.use_same_provider))
+                elif list(mp) != [''] or areq.use_same_provider:
+                    shape.append('unsuffixed group: mappings %r, use_same_provider=%r' % (mp, areq.use_same_provider))
                 ids = []
                 for arr in areq.resource_requests:
                     if id(arr) not in ident:
@@ -75,7 +87,9 @@ class MergeTap(object):
                'parents': [[U(k), (U(v) if v is not None else None)] for k, v in rw_ctx.parent_uuid_by_rp_uuid.items()],
                'limits': [[k[0], C(k[1]), p.used, p.capacity, p.max_unit] for k, p in rw_ctx.psum_res_by_rp_rc.items()]}
         shared = len(store) < sum(len(a['arrs']) for _, l in groups for a in l)
-        return {'cmd': {'cmd': 'merge', 'store': store, 'groups': groups, 'ctx': ctx}, 'shared_objects': shared,
+        if any('' in ss for ss in rw_ctx.same_subtrees):
+            shape.append('same_subtree names the unsuffixed group: %r' % (rw_ctx.same_subtrees,))
+        return {'cmd': {'cmd': 'merge', 'store': store, 'groups': groups, 'ctx': ctx}, 'shared_objects': shared, 'shape': shape,
                 'rp': (lambda x: x), 'C': C, 'S': S, 'U': U}
 
     def check(self, model):
@@ -95,6 +109,9 @@ class MergeTap(object):
             if bad:
                 out.append(('corr:merge:multi-group-class-not-listed', 'keys placed by several groups whose class is not in '
                             'multi_group_rcs: %s' % bad[:3], c))
+            if rec.get('shape'):
+                out.append(('corr:merge:combination-shape', 'an allocation request handed to _merge_candidates is not of the shape '
+                            'the theorems of Props/C03Merge.lean assume: %s' % rec['shape'][:2], c))
             mr = model.send(rec['cmd'])
             if 'error' in mr:
                 out.append(('corr:merge:driver-error', mr['error'], rec['cmd']))
